@@ -1,5 +1,5 @@
 # replay of a bounded stand-in violation (C04): re-run native/c04_reorder.py
 import sys
-print('gbs compile [mode 0 deleted, mode 1 measured]: merged MeasureFock acts on modes [2], the program measures modes [1]')
+print("optimize [Vacuum, Fock(1)]: the optimised program ['Vac | (q[0])'] prepares a different state (moments [0.0, 1.0, 0.0, 1.0, 0.0, 1.0, 0.0, 0.0] vs [0.0, 3.0, 0.0, 3.0, 0.0, 3.0, 1.0, 0.0])")
 print('REPLAY-VIOLATION')
 sys.exit(1)
